@@ -121,7 +121,10 @@ class UserCallPlugin:
         if dotted == 'uuid.uuid4':
             def u4(it_, ca):
                 used(it_, 'uuid.uuid4(): a fresh opaque value')
-                return SymV(it_.st.fresh_val('uuid'))
+                it_.st.emit('fresh_uuid')
+                u = it_.st.fresh_val('uuid')
+                it_.st.assume(u != NONE)
+                return SymV(u)
             return (LibFn(dotted, u4),)
         if dotted == 'warnings.warn':
             return (LibFn(dotted, lambda it_, ca: None),)
